@@ -15,3 +15,4 @@ import PC.Props.C17
 import PC.Props.C13
 import PC.Props.C14
 import PC.Props.C15
+import PC.Props.C16
